@@ -44,6 +44,10 @@ func VerifC07Changes() {
 	d := newVDB()
 	s := &c07state{d: d, committed: newDBModel(), replay: &vnd.Map{}}
 	t := d.table
+	other, oerr := NewTable[*vobj](d.db, "other", vIDIndex)
+	if oerr != nil {
+		panic(oerr)
+	}
 
 	write := func(w WriteTxn, m *dbModel, tag string) {
 		k := vnd.Bytes(tag, L)
@@ -148,6 +152,27 @@ func VerifC07Changes() {
 				}
 			}
 			vnd.Cover("C07.next-with-writetxn")
+		case 4: // Next with a write transaction on ANOTHER table that was opened before a later commit to this table
+			ow := d.db.WriteTxn(other)
+			old := s.committed.snapshot()
+			{
+				w := d.db.WriteTxn(t)
+				pending := s.committed.snapshot()
+				write(w, pending, "o")
+				w.Commit()
+				s.committed = pending
+			}
+			seq, watch := it.Next(ow)
+			n := s.consume(seq, -1)
+			if vnd.IsClosed(watch) {
+				// converges to the snapshot that was passed to Next, not to a newer one
+				vnd.Assert(vnd.EqualMaps(s.replay, old.revs), "C07.converged.older-writetxn-snapshot")
+			} else {
+				vnd.Assert(n == 0, "C07.open-watch-delivers-nothing")
+			}
+			ow.Abort()
+			openWatch = nil
+			vnd.Cover("C07.next-with-older-writetxn")
 		case 3: // Next with a fresh snapshot, partially consumed (one element)
 			seq, _ := it.Next(d.db.ReadTxn())
 			s.consume(seq, 1)
